@@ -163,7 +163,15 @@ func runC19(r *core.Run) int {
 		if !r.ClaimPattern(s) {
 			return
 		}
-		opts := []int{c19Opts[rng.Intn(len(c19Opts))], c19Opts[rng.Intn(len(c19Opts))]}
+		opts := []int{c19Opts[rng.Intn(len(c19Opts))], c19Opts[rng.Intn(len(c19Opts))], 0}
+		// and a random subset of all options that keep literal meaning (Unicode without ECMAScript
+		// changes nothing for a literal; ECMAScript reads \x{...} differently and IgnoreCase widens the
+		// match, so neither is among them)
+		for _, o := range []regexp2.RegexOptions{regexp2.IgnorePatternWhitespace, regexp2.Multiline, regexp2.Singleline, regexp2.ExplicitCapture, regexp2.RightToLeft, regexp2.RE2, regexp2.Unicode} {
+			if rng.Intn(2) == 0 {
+				opts[2] |= int(o)
+			}
+		}
 		l.Eval(1)
 		if regexp2.Escape(s) != s {
 			l.NontrivialN(1)
@@ -177,13 +185,13 @@ func runC19(r *core.Run) int {
 			l.Violate(core.Violation{Kind: "escape-law", Detail: d, Witness: w})
 		}
 	})
-	r.Extras["bounds"] = map[string]any{"strings": nStr, "length": "1-6 runes", "every_code_point": everyCodePoint, "option_sets": len(c19Opts)}
+	r.Extras["bounds"] = map[string]any{"strings": nStr, "length": "1-6 runes", "every_code_point": everyCodePoint, "option_sets": fmt.Sprintf("%d fixed + random subsets of {x,m,s,n,RightToLeft,RE2,Unicode}", len(c19Opts))}
 	if everyCodePoint {
 		r.Extras["exhaustive"] = false
 		r.Extras["exhaustive_single_code_points"] = true
 	}
 	return r.Finish(
-		"strings of 1-6 runes drawn from metacharacters, whitespace, controls, the boundaries of Escape's encoding ranges (0x100, 0x1000, 0x10000) +-1, unassigned and non-printable runes below and above U+FFFF, and hex digits (so a wrong escape width changes the meaning); per string: Unescape(Escape(s)) == s, \\A(?:Escape(s))\\z compiles under option sets that keep literal meaning (incl. IgnorePatternWhitespace, RightToLeft, RE2), matches s and rejects up to 60 near-misses (rune dropped, doubled, replaced by a neighbour / other case / U+FFFD, text prepended or appended); thorough adds every code point alone and followed by a hex digit; non-trivial = distinct string that Escape actually changes",
+		"strings of 1-6 runes drawn from metacharacters, whitespace, controls, the boundaries of Escape's encoding ranges (0x100, 0x1000, 0x10000) +-1, unassigned and non-printable runes below and above U+FFFF, and hex digits (so a wrong escape width changes the meaning); per string: Unescape(Escape(s)) == s, \\A(?:Escape(s))\\z compiles under option sets that keep literal meaning (two of ten fixed sets plus a random subset of IgnorePatternWhitespace, Multiline, Singleline, ExplicitCapture, RightToLeft, RE2, Unicode), matches s and rejects up to 60 near-misses (rune dropped, doubled, replaced by a neighbour / other case / U+FFFD, text prepended or appended); thorough adds every code point alone and followed by a hex digit; non-trivial = distinct string that Escape actually changes",
 		[]string{"valid UTF-8 strings only, as the property states"},
 		map[string]int64{"evaluations": 10000, "distinct_nontrivial": 5000, "law_rejects-near-miss": 100000})
 }
